@@ -22,6 +22,10 @@ type ExploreOpts struct {
 	// Sleep selects mode A: unbounded exploration with sleep-set partial-order
 	// reduction (one complete execution per Mazurkiewicz trace; requires Bound < 0).
 	Sleep bool
+	// DPOR additionally restricts the alternatives explored at each node to a
+	// dynamically computed persistent set (Flanagan & Godefroid 2005), which
+	// removes most of the sleep-set-blocked prefixes. Implies Sleep.
+	DPOR bool
 }
 
 // Found is a violating execution.
@@ -62,6 +66,12 @@ func Explore(prog Program, opts ExploreOpts) ExploreStats {
 }
 
 func exploreOnce(prog Program, opts ExploreOpts) ExploreStats {
+	if opts.DPOR {
+		if opts.Bound >= 0 {
+			panic(MachineryError{"DPOR must not be combined with a preemption bound"})
+		}
+		return exploreDPOR(prog, opts)
+	}
 	if opts.Sleep {
 		if opts.Bound >= 0 {
 			panic(MachineryError{"sleep sets must not be combined with a preemption bound"})
@@ -248,4 +258,233 @@ func exploreSleep(prog Program, opts ExploreOpts) ExploreStats {
 		}
 	}
 	return stats
+}
+
+// exploreDPOR is mode A with dynamic partial-order reduction: depth-first over
+// the tree of choice points, exploring at each node only the threads in its
+// backtrack set. After every execution, for every transition j the last
+// earlier transition i on the same synchronisation object by another thread
+// that does not happen-before j is a reversible race: the thread of j (or, if
+// it was not enabled there, every enabled thread) is added to the backtrack
+// set of the node at which i was chosen. Sleep sets are kept on top.
+func exploreDPOR(prog Program, opts ExploreOpts) ExploreStats {
+	stats := ExploreStats{Bound: -1, Complete: true}
+	type node struct {
+		enabled   []int
+		sleep     map[int]bool // propagated sleep set at this node (without the siblings done here)
+		backtrack map[int]bool
+		done      []int // threads explored from this node, in order (the last one is the current choice)
+	}
+	var nodes []*node
+	var prefix []int
+	for {
+		if opts.MaxExecs > 0 && stats.Executions >= opts.MaxExecs {
+			stats.Complete = false
+			break
+		}
+		if !opts.Deadline.IsZero() && stats.Executions%64 == 0 && time.Now().After(opts.Deadline) {
+			stats.Complete = false
+			break
+		}
+		installs := map[int][]int{}
+		for k, n := range nodes {
+			if len(n.done) > 1 {
+				installs[k] = n.done[:len(n.done)-1]
+			}
+		}
+		threads, judge := prog()
+		cfg := Config{Elide: opts.Elide, Race: opts.Race, FuelTotal: opts.FuelTotal, Sleep: true, Installs: installs}
+		ex := RunOnce(cfg, prefix, threads)
+		stats.Executions++
+		stats.Points += len(ex.Points)
+		if len(ex.Points) > stats.MaxPoints {
+			stats.MaxPoints = len(ex.Points)
+		}
+		if ex.Threads > stats.MaxThreads {
+			stats.MaxThreads = ex.Threads
+		}
+		if ex.ElisionBroken && opts.Elide {
+			stats.ElisionOff = true
+			stats.Complete = false
+			return stats
+		}
+		if len(ex.Points) < len(nodes) {
+			panic(MachineryError{"replay diverged: the execution has fewer choice points than the path it was to follow"})
+		}
+		// extend the path with the nodes discovered by this run
+		for k := len(nodes); k < len(ex.Points); k++ {
+			p := ex.Points[k]
+			t := p.Enabled[p.Chosen]
+			n := &node{enabled: p.Enabled, sleep: map[int]bool{}, backtrack: map[int]bool{t: true}, done: []int{t}}
+			for _, u := range p.Sleep {
+				n.sleep[u] = true
+			}
+			nodes = append(nodes, n)
+		}
+		// the propagated sleep set of the deviation node was recorded with the installed siblings; keep the union
+		if ex.SleepBlocked {
+			stats.SleepBlocked++
+		} else {
+			if ex.Deadlock {
+				stats.Deadlocks++
+			}
+			if p := ex.PreemptionsOf(); p > stats.MaxPreempt {
+				stats.MaxPreempt = p
+			}
+			if opts.OnExec != nil {
+				opts.OnExec(ex)
+			}
+			if what := judge(ex); len(what) > 0 {
+				stats.Violations = append(stats.Violations, Found{Choices: append([]int(nil), ex.Choices...), What: what, Exec: ex})
+				if opts.StopAtFirst {
+					stats.Complete = false
+					return stats
+				}
+			}
+		}
+		// race analysis
+		type vc = map[int]int
+		ct := map[int]vc{}       // thread clocks
+		co := map[any]vc{}       // object clocks
+		onObj := map[any][]int{} // transitions on an object, in order
+		tvc := make([]vc, len(ex.Trans))
+		local := map[int]int{} // per-thread transition counter
+		join := func(a, b vc) vc {
+			out := vc{}
+			for k, v := range a {
+				out[k] = v
+			}
+			for k, v := range b {
+				if v > out[k] {
+					out[k] = v
+				}
+			}
+			return out
+		}
+		// races adds, for an operation of thread q on obj whose thread clock is cq, a backtrack point before
+		// every earlier operation on obj by another thread that does not happen-before it (all operations on one
+		// object are mutually dependent, so they form a chain: stop at the first one that happens-before q)
+		races := func(q int, obj any, cq vc) {
+			list := onObj[obj]
+			for x := len(list) - 1; x >= 0; x-- {
+				i := list[x]
+				ti := ex.Trans[i]
+				if ti.Tid == q || tvc[i][ti.Tid] <= cq[ti.Tid] {
+					break
+				}
+				if ti.Node < 0 || ti.Node >= len(nodes) {
+					continue
+				}
+				n := nodes[ti.Node]
+				isEnabled := false
+				for _, u := range n.enabled {
+					if u == q {
+						isEnabled = true
+					}
+				}
+				if isEnabled && !n.sleep[q] {
+					n.backtrack[q] = true
+				} else {
+					// q cannot be started here (not enabled, or asleep: its first step from here is covered
+					// elsewhere but the reversal may need another thread to run first): expand the node fully
+					for _, u := range n.enabled {
+						n.backtrack[u] = true
+					}
+				}
+			}
+		}
+		for j, tr := range ex.Trans {
+			q := tr.Tid
+			cq := ct[q]
+			if cq == nil {
+				cq = vc{}
+				if tr.Parent >= 0 && tr.Parent < len(tvc) && tvc[tr.Parent] != nil {
+					cq = join(cq, tvc[tr.Parent])
+				}
+			}
+			if tr.Obj != nil {
+				races(q, tr.Obj, cq)
+			}
+			local[q]++
+			nc := join(cq, nil)
+			if tr.Obj != nil {
+				nc = join(nc, co[tr.Obj])
+			}
+			nc[q] = local[q]
+			tvc[j] = nc
+			ct[q] = nc
+			if tr.Obj != nil {
+				co[tr.Obj] = nc
+				onObj[tr.Obj] = append(onObj[tr.Obj], j)
+			}
+		}
+		// operations still pending when the execution ended (blocked threads) race with what was executed
+		for _, pd := range ex.Pending {
+			if pd.Obj != nil {
+				cq := ct[pd.Tid]
+				if cq == nil {
+					cq = vc{}
+				}
+				races(pd.Tid, pd.Obj, cq)
+			}
+		}
+		if debugDPOR {
+			for k, n := range nodes {
+				println("node", k, "enabled", fmtInts(n.enabled), "bt", fmtSet(n.backtrack), "sleep", fmtSet(n.sleep), "done", fmtInts(n.done))
+			}
+		}
+		// next: the deepest node with a thread to explore that is neither done nor asleep
+		found := false
+		for k := len(nodes) - 1; k >= 0 && !found; k-- {
+			n := nodes[k]
+			for idx, u := range n.enabled {
+				if !n.backtrack[u] || n.sleep[u] {
+					continue
+				}
+				isDone := false
+				for _, d := range n.done {
+					if d == u {
+						isDone = true
+					}
+				}
+				if isDone {
+					continue
+				}
+				n.done = append(n.done, u)
+				nodes = nodes[:k+1]
+				np := make([]int, k+1)
+				copy(np, ex.Choices[:k])
+				if k < len(prefix) {
+					copy(np, prefix[:k])
+				}
+				np[k] = idx
+				prefix = np
+				found = true
+				break
+			}
+		}
+		if !found {
+			break
+		}
+	}
+	return stats
+}
+
+var debugDPOR = false
+
+func fmtInts(a []int) string {
+	s := ""
+	for _, x := range a {
+		s += string(rune('0'+x)) + " "
+	}
+	return s
+}
+func fmtSet(m map[int]bool) string {
+	s := ""
+	for x := 0; x < 10; x++ {
+		if m[x] {
+			s += string(rune('0'+x)) + " "
+		}
+	}
+	return s
 }
